@@ -80,12 +80,24 @@ def op_inherited_key_name(e, p, root):
     e.append(k)
 
 
-def op_inherited_attribute(e, p, root):
-    base = [t for t in _types(root) if t.get("name") == e.get("extends")][0]
-    it = [x for x in _container_items(base) if _eff_attr(x)][0]
-    new = ET.SubElement(e, "key")
-    new.set("name", "freshname")
-    new.set("attribute", _eff_attr(it))
+def op_inherited_attribute_of(tag):
+    """A derived type gets a new key whose attribute= equals the attribute of an item of kind `tag`
+    inherited from its base (keys, multikeys, named and unnamed sections, multisections)."""
+    def f(e, p, root):
+        base = [t for t in _types(root) if t.get("name") == e.get("extends")][0]
+        it = [x for x in _container_items(base) if x.tag == tag and _eff_attr(x)][0]
+        new = ET.SubElement(e, "key")
+        new.set("name", "freshname")
+        new.set("attribute", _eff_attr(it))
+    return f
+
+
+def base_has(tag):
+    def f(e, p, r):
+        return is_type(e) and e.get("extends") and any(
+            x.tag == tag and _eff_attr(x) for t in _types(r) if t.get("name") == e.get("extends")
+            for x in _container_items(t))
+    return f
 
 
 def op_use_before_definition(e, p, root):
@@ -196,10 +208,11 @@ VIOLATING = [
      lambda e, p, r: is_type(e) and e.get("extends") and not e.get("keytype") and any(
          x.tag in ("key", "multikey") and x.get("name") != "+" for t in _types(r) if t.get("name") == e.get("extends") for x in t),
      op_inherited_key_name),
-    ("duplicate-inherited-attribute",
-     lambda e, p, r: is_type(e) and e.get("extends") and any(
-         _eff_attr(x) for t in _types(r) if t.get("name") == e.get("extends") for x in _container_items(t)),
-     op_inherited_attribute),
+    ("duplicate-inherited-attribute-of-key", base_has("key"), op_inherited_attribute_of("key")),
+    ("duplicate-inherited-attribute-of-multikey", base_has("multikey"), op_inherited_attribute_of("multikey")),
+    ("duplicate-inherited-attribute-of-section", base_has("section"), op_inherited_attribute_of("section")),
+    ("duplicate-inherited-attribute-of-multisection", base_has("multisection"),
+     op_inherited_attribute_of("multisection")),
     ("type-used-before-definition", refers_to_earlier_type, op_use_before_definition),
     ("extends-abstract", lambda e, p, r: is_type(e) and abstract_names(r) and not e.get("extends"),
      lambda e, p, r: e.set("extends", abstract_names(r)[0])),
@@ -313,6 +326,22 @@ def base_documents(tier):
                     items=(M.Sect("*", "idderived", attribute="ds", multi=True), M.Sect("n1", "abs"),
                            M.Key("top", required=True)), prefix="vz.harness", keytype="identifier")
     docs.append(("composed", M.render(comp)))
+    # section types whose key type differs from the schema's, each with a single-valued wildcard key
+    bk_in_id = M.SType("bkwild", (M.Key("+", attribute="opts", default=(("a", "1"), ("b", "2"))),), keytype="basic-key")
+    id_in_bk = M.SType("idwild", (M.Key("+", attribute="opts", default=(("Da", "1"), ("da", "2"))),), keytype="identifier")
+    docs.append(("keytypes-id-schema", M.render(M.Schema(types=(bk_in_id,), keytype="identifier",
+                                                         items=(M.Sect("*", "bkwild", attribute="s"),)))))
+    docs.append(("keytypes-bk-schema", M.render(M.Schema(types=(id_in_bk, bk_in_id),
+                                                         items=(M.Sect("*", "idwild", attribute="s"),
+                                                                M.Sect("*", "bkwild", attribute="t"))))))
+    # a base type holding one item of every kind, a derived type and a second-level derived type
+    allk = M.SType("allkinds", (M.Key("bk1"), M.MultiKey("bm1"), M.Key("+", attribute="bw"),
+                                M.Sect("bn1", "l1"), M.Sect("*", "l1", attribute="bs"),
+                                M.Sect("+", "l1", attribute="bms", multi=True)))
+    d1 = M.SType("derived1", (M.Key("dk1"),), extends="allkinds")
+    d2 = M.SType("derived2", (M.MultiKey("dm2"),), extends="derived1")
+    docs.append(("derived-all-kinds", M.render(M.Schema(types=(M.SType("l1", (M.Key("lk"),)), allk, d1, d2),
+                                                         items=(M.Sect("*", "derived2", attribute="ds", multi=True),)))))
     return docs
 
 
